@@ -73,6 +73,7 @@ Fixpoint nocall (q : query) : bool :=
   | QBind s _ b => nocall s && nocall b
   | QDef _ _ body rest => nocall rest        (* the body is never run *)
   | QCallF _ _ => false
+  | QObject _ | QBindP _ _ _ | QIndexQ _ _ | QSlice _ _ _ => false        (* not needed by the operands this condition is used for *)
   end.
 
 Lemma lookup_v_skip : forall x pre d ps body rho, lookup_v x (pre ++ (d, BF ps body) :: rho) = lookup_v x (pre ++ rho).
